@@ -15,11 +15,38 @@ def truth(c):
     return not (c[1] == 0)
 
 
+def _nav(env, key):
+    """value of a composite place key (`_3.f0`, `_7@Some.f0`) when the longest stored prefix is a known aggregate"""
+    toks = re.findall(r'(^_\d+|@\w+|\.f\d+)', key)
+    if not toks or ''.join(toks) != key or len(toks) < 2:
+        return None
+    for cut in range(len(toks) - 1, 0, -1):
+        pre = ''.join(toks[:cut])
+        if pre in env:
+            val = env[pre]
+            for tk in toks[cut:]:
+                if not isinstance(val, tuple) or not val:
+                    return None
+                if tk.startswith('@'):
+                    if val[0] == 'agg' and val[2] == tk[1:]:
+                        continue
+                    return None
+                i = int(tk[2:])
+                if val[0] == 'agg' and i < len(val[3]):
+                    val = val[3][i]
+                else:
+                    return None
+            return val
+    return None
+
+
 def deref(env, v, depth=6):
     while depth and isinstance(v, tuple) and v and v[0] == 'ref':
         key = v[1]
         if key in env:
             v = env[key]
+        elif _nav(env, key) is not None:
+            v = _nav(env, key)
         elif key.startswith('_') and key[1:].isdigit():
             return ('local', int(key[1:]))
         elif key.endswith('.*') and key[:-2].startswith('_') and key[1:-2].isdigit():
